@@ -9,8 +9,11 @@ ENTRY = {
                 "add_url, set_url, loading from the configuration and a following refresh may open. Each vector is replayed into a real DNSFilter through the "
                 "registered HTTP handlers (POST add_url, set_url, refresh; unvalidated list in Config.Filters) on a scratch tree of sentinel files; opens are observed "
                 "with inotify IN_OPEN, by sentinel rules in the stored lists and by sentinel domains blocked by the rebuilt engine. Quick replays a seeded ~9% sample "
-                "(one entry point each), thorough every vector through all three entry points. Direction B: a seeded driver (random trees, odd names, random globs, "
-                "spellings, 25-step histories incl. restarts) is recorded and validated by TraceSafePath.tla on real path segments.",
+                "(one entry point each), thorough every vector through all three entry points. History dependence: SafePath.walk.cfg prints the 73224 edges of the "
+                "state graph over (patterns, list table); they are covered by walks of up to 40 steps on one live instance each (quick: 20000 steps, thorough: all edges), "
+                "compared after every step, a disagreement being reproduced by re-running the walk's prefix on a fresh instance. Direction B: a seeded driver (random trees, odd names, random globs, "
+                "spellings, 25-step histories incl. restarts) is recorded and validated by TraceSafePath.tla on real path segments; a rejected line is reproduced "
+                "by executing its epoch's logged history again up to that line.",
         "design_ref": "DESIGN.md section 4 C17",
         "note": "Trusted: TLC; conc()/abs() of zz_verif_c17_test.go (rendering of locations/globs, tree layout); inotify as the observer of open(2) "
                 "(cross-checked against stored-list content on accepted requests). Symlink-free scratch tree, Linux path semantics. Opens above the scratch "
